@@ -749,6 +749,98 @@ def SCHED_STREAM(profile):
     return dict(stream='sched-' + profile, custom=make_custom_sched(profile), custom_replay=True,
                 rule='real threads of the real crate (Arc<payload> with and without drop glue, 2-3 threads) are serialised by the harness: a thread is released up to its next atomic operation on the counter, to the payload destructor or to the payload clone; loads may be handed any older value of the counter that the thread\'s view allows. GUIDED schedules: random label streams filtered by the ConcX machine running the counter programs translated from the source; every accepted label is compared (operation, ordering, value read, what the step does, whether the function returns) and so is the final state (destroyed, released, raced, leaked, handles per thread), the implementation side computing happens-before from the orderings the crate really used. FREE schedules: the same on the implementation alone, as a search for a failing schedule. Profile %s. distinct = distinct accepted guided schedules of 4 or more labels' % profile)
 
+# ============================================================================
+# miri scenarios: the abstract machine as an oracle on the real crate (provenance, uninitialised reads, the layout a
+# block is released with, data races between real threads, leaks)
+# ============================================================================
+MIRI_DIR = os.path.join(vlib.ROOT, 'miri')
+def miri_tests():
+    import re
+    out = {}
+    for f in ('scenarios', 'leaky'):
+        txt = open(os.path.join(MIRI_DIR, 'tests', f + '.rs')).read()
+        for m in re.finditer(r'#\[test\]\s*fn\s+(c\d\d_\w+)\s*\(\)\s*\{', txt):
+            # the body, for the replay file
+            i = m.end(); depth = 1
+            while i < len(txt) and depth:
+                depth += {'{': 1, '}': -1}.get(txt[i], 0); i += 1
+            out[m.group(1)] = (f, txt[m.start():i])
+    return out
+
+def miri_env():
+    env = dict(vlib.ENV)
+    env.pop('RUSTFLAGS', None)                       # the crate as shipped: no verification hooks under miri
+    env['CARGO_TARGET_DIR'] = os.path.join(vlib.TARGET, 'miri')
+    env['MIRI_SYSROOT'] = os.path.join(vlib.CACHE, 'miri-sysroot')
+    return env
+
+def miri_ready():
+    """build miri's sysroot (offline, from rust-src) when it is not there; -> (ok, message)"""
+    env = miri_env()
+    if os.path.isdir(os.path.join(env['MIRI_SYSROOT'], 'lib')): return True, 'sysroot present'
+    lock = os.path.join(MIRI_DIR, 'Cargo.lock')
+    if not os.path.exists(lock) and os.path.exists(os.path.join(vlib.HARNESS, 'Cargo.lock')): shutil.copy(os.path.join(vlib.HARNESS, 'Cargo.lock'), lock)
+    with vlib.Lock():
+        if os.path.isdir(os.path.join(env['MIRI_SYSROOT'], 'lib')): return True, 'sysroot present'
+        rc, out = vlib.run(['cargo', '+nightly', 'miri', 'setup'], cwd=MIRI_DIR, timeout=900, env=env)
+    return rc == 0, vlib.strip_noise(out)[-1500:]
+
+def make_custom_miri(prefixes):
+    def custom(tier, rng, facts, replay=None):
+        import concurrent.futures, re
+        cov = dict(available=True, tests=0, passed=0, failed=0, runs=0, modes=[], names=[])
+        problems = []; nontrivial = set(); samples = []
+        ok, msg = miri_ready()
+        if not ok:
+            cov['available'] = False; cov['note'] = 'miri is not usable here (%s): the scenarios were not run' % msg[-300:]
+            return dict(coverage=cov, evaluations=0, nontrivial=nontrivial, problems=problems, samples=samples)
+        tests = miri_tests()
+        names = sorted(n for n in tests if any(n.startswith(p) for p in prefixes))
+        if replay:
+            fi = (json.load(open(replay)).get('failing_input') or {})
+            if fi.get('stream') == 'miri' and fi.get('test') in tests: names = [fi['test']]
+        modes = [('stacked-borrows', '')] + ([('tree-borrows', '-Zmiri-tree-borrows'), ('stacked-borrows, 6 schedules', '-Zmiri-many-seeds=0..6')] if tier == 'thorough' else [])
+        cov['modes'] = [m for m, _ in modes]; cov['names'] = names; cov['tests'] = len(names)
+        env0 = miri_env()
+        # build once (the test binaries), then run the tests one by one: a report of undefined behaviour ends the process
+        with vlib.Lock():
+            rc, out = vlib.run(['cargo', '+nightly', 'miri', 'test', '--offline', '--no-run'], cwd=MIRI_DIR, timeout=900, env=env0)
+        if rc != 0:
+            problems.append(('build', 'the miri scenarios do not build against /repo: %s' % vlib.strip_noise(out)[-1200:], dict(kind='unproved', stage='miri-build', output=vlib.strip_noise(out)[-3000:])))
+            return dict(coverage=cov, evaluations=0, nontrivial=nontrivial, problems=problems, samples=samples)
+        jobs = [(n, m, fl) for n in names for m, fl in modes if not ('schedules' in m and not re.search(r'thread::spawn', tests[n][1]))]
+        def one(job):
+            n, m, fl = job
+            env = dict(env0)
+            flags = fl + (' -Zmiri-ignore-leaks' if tests[n][0] == 'leaky' else '')
+            if flags.strip(): env['MIRIFLAGS'] = flags.strip()
+            rc, out = vlib.run(['cargo', '+nightly', 'miri', 'test', '--offline', '--test', tests[n][0], '--', '--exact', n], cwd=MIRI_DIR, timeout=600, env=env)
+            return job, rc, out
+        with concurrent.futures.ThreadPoolExecutor(max_workers=max(1, min(vlib.NPROC, len(jobs)))) as ex:
+            results = list(ex.map(one, jobs))
+        for (n, m, fl), rc, out in results:
+            cov['runs'] += 1
+            good = rc == 0 and re.search(r'test result: ok\. 1 passed', out) is not None
+            if good:
+                cov['passed'] += 1; nontrivial.add(n); continue
+            cov['failed'] += 1
+            txt = vlib.strip_noise(out)
+            errs = [l.strip() for l in txt.split('\n') if l.startswith('error') and 'test failed' not in l and 'aborting due' not in l]
+            where = [l.strip() for l in txt.split('\n') if '/repo/src/' in l][:6]
+            panic = [l.strip() for l in txt.split('\n') if 'panicked at' in l][:2]
+            why = (errs[0] if errs else (panic[0] if panic else 'the scenario did not pass')) 
+            if len([p for p in problems if p[0] == 'oracle']) < 4:
+                problems.append(('oracle', 'scenario %s under miri (%s): %s' % (n, m, why[:300]),
+                                 dict(kind='impl-counterexample', stream='miri', test=n, mode=m, program=tests[n][1], miri_report=errs[:4] + where, panic=panic,
+                                      how_to_rerun='cd /verif/miri && %scargo +nightly miri test --offline --test %s -- --exact %s' % (('MIRIFLAGS="%s" ' % fl) if fl else '', tests[n][0], n), why=why[:600])))
+        if names: samples.append(dict(stream='miri', test=names[0], program=tests[names[0]][1][:1500]))
+        return dict(coverage=cov, evaluations=cov['runs'], nontrivial=nontrivial, problems=problems, samples=samples)
+    return custom
+
+def MIRI_STREAM(prefixes):
+    return dict(stream='miri', custom=make_custom_miri(prefixes), custom_replay=True,
+                rule='scenario programs over the public API (miri/tests/*.rs: %s) run under miri against /repo as shipped (no hooks): Stacked Borrows pointer provenance, reads of uninitialised memory, the layout every block is released with, double frees, leaks at exit (except in the scenarios whose documented behaviour leaks), data races between real threads under the orderings the crate uses; thorough tier: also Tree Borrows and 6 schedules of the threaded scenarios. An oracle on the implementation, not a proof; distinct = scenarios that passed' % ', '.join(p + '*' for p in prefixes))
+
 def facts_protocol(facts):
     P = facts.get('protocol') or {}
     return dict((k, P.get(k)) for k in ['dec_ord', 'acq_kind', 'acq_ord', 'uniq_ord', 'inc_ord', 'strong_ord', 'closed', 'drop_shape', 'unmodelled_sites'])
@@ -1628,6 +1720,11 @@ def c15_side(facts):
 _c15_old_side = PROPS['C15']['side_obligations']
 PROPS['C15']['side_obligations'] = lambda facts: _c15_old_side(facts) + c15_side(facts)
 PROPS['C09']['streams'] = PROPS['C09']['streams'] + [DPANIC_STREAM]
+# miri scenarios per property
+for _pid, _pre in (('C01', ['c01_', 'c04_']), ('C02', ['c02_']), ('C03', ['c03_']), ('C04', ['c04_']), ('C05', ['c06_', 'c01_thin', 'c01_union', 'c09_']),
+                   ('C06', ['c06_']), ('C07', ['c07_']), ('C08', ['c08_']), ('C09', ['c09_']), ('C10', ['c10_', 'c01_thin']), ('C11', ['c11_']),
+                   ('C12', ['c01_union', 'c14_']), ('C14', ['c14_']), ('C15', ['c15_'])):
+    PROPS[_pid]['streams'] = PROPS[_pid]['streams'] + [MIRI_STREAM(_pre)]
 # the schedule stream: real threads against the machine of the translated counter programs
 PROPS['C02']['streams'] = PROPS['C02']['streams'] + [SCHED_STREAM('drops')]
 PROPS['C03']['streams'] = PROPS['C03']['streams'] + [SCHED_STREAM('unique')]
